@@ -125,6 +125,11 @@ substitute_decl(CPPDeclaration::SubstDecl &subst,
     rep->_return_type =
       _return_type->substitute_decl(subst, current_scope, global_scope)
       ->as_type();
+    if (rep->_return_type == nullptr) {
+      // A type parameter was given something that is not a type (as when an
+      // alias template's non-type argument lands in the place of a type).
+      rep->_return_type = _return_type;
+    }
   }
 
   if (_parameters != nullptr) {
